@@ -121,13 +121,18 @@ def _ident_cases(draw):
 
 
 def _envelope(x, dx, dy):
-    out = np.empty((len(x), 2))
-    for i in range(len(x)):
-        lo, hi = dy[i, 0], dy[i, 1]
-        for j in range(len(x)):
-            if dx[j, 0] <= x[i] <= dx[j, 1]:
-                lo, hi = min(lo, dy[j, 0]), max(hi, dy[j, 1])
-        out[i] = [lo, hi]
+    """band[i] = min / max of the y-limits over all rectangles j whose x-extent contains x[i]
+    (always including rectangle i itself)."""
+    x = np.asarray(x, dtype=float)
+    n = len(x)
+    out = np.empty((n, 2))
+    for a in range(0, n, 512):  # row blocks only bound the temporary; every row sees ALL rectangles
+        xs = x[a:a + 512, None]
+        inside = (dx[None, :, 0] <= xs) & (xs <= dx[None, :, 1])
+        lo = np.where(inside, dy[None, :, 0], np.inf).min(axis=1)
+        hi = np.where(inside, dy[None, :, 1], -np.inf).max(axis=1)
+        out[a:a + 512, 0] = np.minimum(lo, dy[a:a + 512, 0])
+        out[a:a + 512, 1] = np.maximum(hi, dy[a:a + 512, 1])
     return out
 
 
@@ -224,7 +229,8 @@ def _size_cases(tier):
     """Every class size n: the rule-of-three trigger compares a rate with 1/n and (n-1)/n, which is
     sensitive to floating-point rounding for particular n only (cf. C03)."""
     nmax = 400 if tier == "quick" else 3000
-    for n in range(1, nmax + 1):
+    huge = [99_999, 100_003, 150_000, 10**6, 10**8, 3 * 10**8, 10**9, 2**31 + 5, 10**12]
+    for n in list(range(1, nmax + 1)) + huge:
         h = min(n, 4)
         hard = [1.0, 2.0, 3.0, 4.0][:h]
         other = [0.5, 1.5, 2.5]
@@ -234,6 +240,23 @@ def _size_cases(tier):
                      sc=("pos", "neg")[n % 2], ec=("pos", "neg")[(n // 2) % 2], mode="grid")
             yield dict(o=o, sup=dict(kind="nothing"), ci="quantile", alpha=(0.05, 0.5, 0.9)[n % 3], nb=2,
                        x_axis="fpr", n=n)
+
+
+def _large_cases(tier):
+    """Curves with thousands of support points (the aggregation over rectangles is quadratic)."""
+    sizes = [1100, 2100] if tier == "quick" else [1100, 1500, 2100, 3100, 4200]
+    for k, nb in enumerate(sizes):
+        pos = [0.25 * ((7 * i + k) % 40) for i in range(24)]
+        neg = [0.25 * ((11 * i + 3 * k) % 40) - 2.0 for i in range(24)]
+        for sc, ec in (("pos", "pos"), ("neg", "pos")):
+            yield dict(o=dict(pos=pos, neg=neg, ep=k % 2, en=(k + 1) % 3, sc=sc, ec=ec, mode="grid"),
+                       sup=dict(kind="nb_points", nb_points=nb), ci="quantile", alpha=0.3, nb=2, x_axis="fpr")
+    # ... and all-scores supports of many tied scores
+    for nscores in ([700] if tier == "quick" else [700, 1300]):
+        pos = [0.5 * ((13 * i) % 97) for i in range(nscores)]
+        neg = [0.5 * ((17 * i) % 89) - 5.0 for i in range(nscores - 50)]
+        yield dict(o=dict(pos=pos, neg=neg, ep=0, en=0, sc="pos", ec="pos", mode="grid"),
+                   sup=dict(kind="nothing"), ci="quantile", alpha=0.1, nb=2, x_axis="fnr")
 
 
 def _fwb_unbalanced(case):
@@ -277,6 +300,8 @@ PROP = Prop(
         Clause("rule_of_three_sizes", check_identity, kind="enum", cases=_size_cases, quick_shards=4,
                shards=16, min_nontrivial=100,
                doc="closed form for every class size 1..400 (quick) / 1..3000 (thorough), all-scores support"),
+        Clause("large_support", check_identity, kind="enum", cases=_large_cases, quick_shards=5, shards=12,
+               min_nontrivial=3, doc="closed form on curves with 700-4200 support points"),
         Clause("experimental", check_experimental, strategy=_exp_cases(), quick=100, thorough=4000,
                quick_shards=4, min_nontrivial=80, doc="the three experimental band functions"),
     ],
